@@ -392,7 +392,8 @@ func (w *Writer) flushBlock() error {
 		w.bloomFilters = append(w.bloomFilters, w.currentBloomFilter)
 
 		// Create a new bloom filter for the next block
-		w.currentBloomFilter = NewBlockBloomFilterBuilder(w.dataOffset, DefaultWriterOptions().ExpectedEntriesPerBlock)
+		// (the next block starts behind the n bytes just written; dataOffset is updated below)
+		w.currentBloomFilter = NewBlockBloomFilterBuilder(w.dataOffset+uint64(n), DefaultWriterOptions().ExpectedEntriesPerBlock)
 	}
 
 	// Update offset for next block
